@@ -1,9 +1,12 @@
 ----------------------------- MODULE PixmanTrace -----------------------------
-(* Trace specification of the root module: a region built by region calls, attached as a clip, consumed by a  *)
-(* composite.  Events (harness/drv_pipeline.c): Reset, RegOp v rects (the region variable after a region      *)
-(* call: adopted -- the algebra itself is judged by C05-C07), Img id w h px, SetClip id v, SrcClip id on,      *)
-(* Comp op s d sx sy dx dy w h after.  Obligation: after = CompositeResult(...) pixel for pixel, i.e. the      *)
-(* request reaches exactly the composite region with exactly the operator's value.                            *)
+(* Trace specification of the root module.  Events (harness/drv_pipeline.c): Reset, RegOp v rects (the region   *)
+(* variable after a region call: adopted -- the algebra itself is judged by C05-C07), Img id w h fmt px,         *)
+(* Solid id col, SetClip id v, SrcClip id on, SetRepeat id rep, SetTranslation id tx ty, SetCA id on, Ref id,    *)
+(* Unref id gone, Comp op s m d sx sy mx my dx dy w h after, Fill op d col boxes after.                          *)
+(* Obligations: after a composite / fill the destination holds, on the bits its format defines,                 *)
+(* CompositeResult / FillResult pixel for pixel - the request reaches exactly the composite region with         *)
+(* exactly the operator's value, sampled where translation, repeat and format say; pixman_image_unref reports    *)
+(* "gone" exactly when the count the specification keeps reaches zero.                                           *)
 EXTENDS Pixman, TraceIO
 
 VARIABLE l
@@ -13,20 +16,40 @@ Is(e) == l <= TraceLen /\ TraceLog[l].e = e
 Adv == l' = l + 1
 RectList(bs) == [i \in DOMAIN bs |-> <<bs[i][1], bs[i][2], bs[i][3], bs[i][4]>>]
 Pixels(px) == [i \in DOMAIN px |-> <<px[i][1], px[i][2], px[i][3], px[i][4]>>]
+Drop(i) == [j \in DOMAIN img \ {i} |-> img[j]]
+SamePicture(fmt, a, b) == \A i \in DOMAIN a : Defined(fmt, a[i]) = Defined(fmt, b[i])
 
 TReset == /\ Is("Reset") /\ reg' = [v \in 0..3 |-> Empty] /\ img' = <<>> /\ Adv
 TRegOp == /\ Is("RegOp") /\ reg' = [reg EXCEPT ![Ev.v] = Val(Canon(RectList(Ev.rects)))] /\ UNCHANGED img /\ Adv
 TImg == /\ Is("Img")
-        /\ img' = (Ev.id :> [w |-> Ev.w, h |-> Ev.h, px |-> Pixels(Ev.px), clip |-> NoClip, srcclip |-> FALSE]) @@ img
+        /\ img' = (Ev.id :> Bits(Ev.fmt, Ev.w, Ev.h, Pixels(Ev.px))) @@ Drop(Ev.id)
         /\ UNCHANGED reg /\ Adv
+TSolid == /\ Is("Solid")
+          /\ img' = (Ev.id :> Solid(<<Ev.col[1], Ev.col[2], Ev.col[3], Ev.col[4]>>)) @@ Drop(Ev.id)
+          /\ UNCHANGED reg /\ Adv
 TSetClip == /\ Is("SetClip") /\ (IF Ev.v = 0 THEN ClearClip(Ev.id) ELSE SetClip(Ev.id, Ev.v)) /\ Adv
 TSrcClip == /\ Is("SrcClip") /\ SetSourceClipping(Ev.id, Ev.on) /\ Adv
+TSetRepeat == /\ Is("SetRepeat") /\ SetRepeat(Ev.id, Ev.rep) /\ Adv
+TSetTranslation == /\ Is("SetTranslation") /\ SetTranslation(Ev.id, Ev.tx, Ev.ty) /\ Adv
+TSetCA == /\ Is("SetCA") /\ SetComponentAlpha(Ev.id, Ev.on) /\ Adv
+TRef == /\ Is("Ref") /\ Ref(Ev.id) /\ Adv
+TUnref == /\ Is("Unref") /\ Unref(Ev.id, Ev.gone) /\ Adv
 TComp == /\ Is("Comp")
+         /\ Live(Ev.s) /\ Live(Ev.d) /\ (Ev.m = 0 \/ Live(Ev.m))
          /\ img' = [img EXCEPT ![Ev.d].px = Pixels(Ev.after)]            \* what the library left ...
-         /\ Composite(Ev.op, Ev.s, Ev.d, Ev.sx, Ev.sy, Ev.dx, Ev.dy, Ev.w, Ev.h)   \* ... is what the specification requires
-         /\ Adv
+         /\ (SamePicture(img[Ev.d].fmt, Pixels(Ev.after),                  \* ... is what the specification requires
+                         CompositeResult(Ev.op, img[Ev.s], MaskOf(Ev.m), img[Ev.d], Ev.sx, Ev.sy, Ev.mx, Ev.my,
+                                         Ev.dx, Ev.dy, Ev.w, Ev.h))) = TRUE
+         /\ UNCHANGED reg /\ Adv
+TFill == /\ Is("Fill")
+         /\ Live(Ev.d)
+         /\ img' = [img EXCEPT ![Ev.d].px = Pixels(Ev.after)]
+         /\ (SamePicture(img[Ev.d].fmt, Pixels(Ev.after),
+                         FillResult(Ev.op, <<Ev.col[1], Ev.col[2], Ev.col[3], Ev.col[4]>>, img[Ev.d], RectList(Ev.boxes)))) = TRUE
+         /\ UNCHANGED reg /\ Adv
 
 TInit == l = 1 /\ reg = [v \in 0..3 |-> Empty] /\ img = <<>>
-TNext == TReset \/ TRegOp \/ TImg \/ TSetClip \/ TSrcClip \/ TComp
+TNext == TReset \/ TRegOp \/ TImg \/ TSolid \/ TSetClip \/ TSrcClip \/ TSetRepeat \/ TSetTranslation \/ TSetCA
+         \/ TRef \/ TUnref \/ TComp \/ TFill
 TSpec == TInit /\ [][TNext]_tvars
 =============================================================================
